@@ -70,34 +70,38 @@ func neq(l, r *number) *number {
 	return bton(ntof(l) != ntof(r))
 }
 
+// Arithmetic works on the representation the operands actually carry: integer arithmetic when
+// both are integers, floating point (an integer operand is promoted) as soon as one of them is
+// a float. Only the field selected by isFloat is ever read, so a number means the same no
+// matter whether it came from a literal, an operator or a builtin.
 func add(l, r *number) *number {
-	return &number{
-		ival:    l.ival + r.ival,
-		fval:    l.fval + r.fval,
-		isFloat: l.isFloat || r.isFloat,
+	if l.isFloat || r.isFloat {
+		return &number{fval: ntof(l) + ntof(r), isFloat: true}
 	}
+	return inum(l.ival + r.ival)
 }
 
 func mul(l, r *number) *number {
-	return &number{
-		ival:    l.ival * r.ival,
-		fval:    l.fval * r.fval,
-		isFloat: l.isFloat || r.isFloat,
+	if l.isFloat || r.isFloat {
+		return &number{fval: ntof(l) * ntof(r), isFloat: true}
 	}
+	return inum(l.ival * r.ival)
 }
 
 func div(l, r *number) *number {
-	return &number{
-		ival:    l.ival / r.ival,
-		fval:    l.fval / r.fval,
-		isFloat: l.isFloat || r.isFloat,
+	if l.isFloat || r.isFloat {
+		return &number{fval: ntof(l) / ntof(r), isFloat: true}
 	}
+	return inum(l.ival / r.ival)
 }
 
 func sub(l, r *number) *number {
-	return &number{
-		ival:    l.ival - r.ival,
-		fval:    l.fval - r.fval,
-		isFloat: l.isFloat || r.isFloat,
+	if l.isFloat || r.isFloat {
+		return &number{fval: ntof(l) - ntof(r), isFloat: true}
 	}
+	return inum(l.ival - r.ival)
+}
+
+func inum(i int64) *number {
+	return &number{ival: i, fval: float64(i)}
 }
